@@ -82,13 +82,12 @@ theorem elemMsg_object_eq (o : J5V.Compile.ObjDecl) :
 /-- the object block at `d` -/
 abbrev objCF (d : Addr) : ContainerField := cfOf sObject specObject d
 
-/-- `object NAME { fields }` -/
-theorem object_appends {o : J5V.Compile.ObjDecl} (ho : objDeclOk1 o = true) :
-    Appends j5Env rootScope [] 3 (elemBcl (.object o)) (elemMsg j5Env (.object o)) := by
-  obtain ⟨name, props, nested, psm⟩ := o
-  simp only [objDeclOk1, Bool.and_eq_true, List.isEmpty_iff] at ho
-  obtain ⟨⟨⟨hname, _⟩, hprops⟩, hnested⟩ := ho
-  subst hnested
+/-- `object NAME { fields }`, given that the field statements append the property messages -/
+theorem object_appends_of {name : Str} {props : List CProperty} {psm : Option J5V.Compile.Psm}
+    (hname : isIdent name = true)
+    (hall : ∀ d, AppendsAll j5Env (Scope.newChild (objCF d)) d 3 (propsBcl wField props) (propsMsg j5Env props)) :
+    Appends j5Env rootScope [] 3 (elemBcl (.object (.mk name props [] psm)))
+      (elemMsg j5Env (.object (.mk name props [] psm))) := by
   intro xs t vs ht hv
   rw [elemMsg_object_eq, objectMsg_eq]
   let d : Addr := [] ++ [3, xs.length, 2]
@@ -107,17 +106,28 @@ theorem object_appends {o : J5V.Compile.ObjDecl} (ho : objDeclOk1 o = true) :
       (by simp only [scalarFromAST, nameTag, asString_tagRef_single (isAscii_of_isIdent hname)]; rfl)).conv ?_
     rw [storeNode_str]; rfl
   -- the body: the fields
-  have hall := props_appendsAll (kw := wField) (by decide) (sc := Scope.newChild (objCF d))
-    (findBlock_alias' (show aliasLookup wField specObject.aliases = some [b!"properties"] by decide +kernel))
-    pi_Object_properties props hprops
   have hbody : Exact (doBody j5Env (Scope.newChild (objCF d)) (propsBcl wField props ++ nestedBcl [])) d
       (objNode name []) () (objNode name (propsMsg j5Env props)) := by
-    refine doBody_append ((appends_fold hall [] _ _ rfl rfl).conv ?_) (doBody_nil _ _ _)
+    refine doBody_append ((appends_fold (hall d) [] _ _ rfl rfl).conv ?_) (doBody_nil _ _ _)
     rw [List.nil_append]; rfl
   exact arrayMemberBlock_exact (kw := wObject) (by decide)
     (findBlock_alias' (show aliasLookup wObject specSourceFile.aliases = some [b!"elements", wObject] by decide +kernel))
     pi_SourceFile_elements pi_RootElement_object (specOf_RootElement _) (specOf_Object _) ht hv
     fresh_RootElement rfl rfl rfl hhead hbody
+
+theorem findBlock_field_objCF (d : Addr) :
+    findBlock wField (Scope.newChild (objCF d)).blockSet = some (objCF d, [b!"properties"]) :=
+  findBlock_alias' (show aliasLookup wField specObject.aliases = some [b!"properties"] by decide +kernel)
+
+/-- `object NAME { fields }` -/
+theorem object_appends {o : J5V.Compile.ObjDecl} (ho : objDeclOk1 o = true) :
+    Appends j5Env rootScope [] 3 (elemBcl (.object o)) (elemMsg j5Env (.object o)) := by
+  obtain ⟨name, props, nested, psm⟩ := o
+  simp only [objDeclOk1, Bool.and_eq_true, List.isEmpty_iff] at ho
+  obtain ⟨⟨⟨hname, _⟩, hprops⟩, hnested⟩ := ho
+  subst hnested
+  exact object_appends_of hname (fun d =>
+    props_appendsAll (kw := wField) (by decide) (findBlock_field_objCF d) pi_Object_properties props hprops)
 
 /-! ## Imports -/
 
